@@ -512,6 +512,12 @@ func runCheck(prop, tier string) int {
 		inconclusive = true
 		inconclusiveWhy = append(inconclusiveWhy, fmt.Sprintf("vacuity: labels never reached: %v", missingReach))
 	}
+	for why, n := range undecWhy {
+		if strings.HasPrefix(why, "engine error") {
+			inconclusive = true
+			inconclusiveWhy = append(inconclusiveWhy, fmt.Sprintf("executor failure on %d paths: %s", n, clip(why, 200)))
+		}
+	}
 	if len(witnessMismatch) > 0 {
 		inconclusive = true
 		inconclusiveWhy = append(inconclusiveWhy, fmt.Sprintf("witness replay mismatches: %d, e.g. %s", len(witnessMismatch), clip(witnessMismatch[0], 500)))
